@@ -32,6 +32,18 @@ func genC17(r *Rng, n int, tier string, emit func(Case)) {
 			if r.Chance(1, 3) {
 				kids = append(kids, tagNode("b", true, nil, codeNode("y + 1", true, true)))
 			}
+			if r.Chance(1, 3) {
+				// a partial that writes into the data it was given and prints what it sees: every partial of one request must see
+				// the data as the caller passed it, not what an earlier partial left behind
+				switch r.Intn(3) {
+				case 0:
+					kids = append(kids, codeNode("cart.label = 'items: ' + cart.n", false, false), codeNode("cart.label", true, true))
+				case 1:
+					kids = append(kids, codeNode("crumbs.push('"+tag+"')", false, false), codeNode("crumbs.join('>')", true, true))
+				default:
+					kids = append(kids, codeNode("cart.label", true, true), codeNode("crumbs.join('>')", true, true), codeNode("crumbs.length", true, true))
+				}
+			}
 			return docOf(tagNode("div", false, nil, kids...))
 		}
 		files[tpl] = mk("main")
@@ -63,7 +75,7 @@ func genC17(r *Rng, n int, tier string, emit func(Case)) {
 				req = append(req, []string{"nope", "", "../" + tpl, "p1/"}[r.Intn(4)])
 			}
 		}
-		data := J{"x": fmt.Sprintf("<v%d>", r.Intn(100)), "y": r.Intn(50)}
+		data := J{"x": fmt.Sprintf("<v%d>", r.Intn(100)), "y": r.Intn(50), "cart": J{"n": r.Intn(9), "label": "n/a"}, "crumbs": []interface{}{"Home"}}
 		emit(Case{"kind": "partials", "model_needs_impl": true, "files": files, "tpl": tpl, "req": req, "data": data})
 	}
 }
